@@ -18,6 +18,7 @@ PARTS += ["ioload"]       # mir_eval/io.py loaders -> MirGen/IOLoad.lean (C20)
 PARTS += ["chordfns"]
 PARTS += ["chordfns_rotate"]
 PARTS += ["segindex"]
+PARTS += ["validators"]   # mir_eval input validators -> MirGen/Validators.lean (C14)
 
 
 def write_if_changed(path, text):
